@@ -7,6 +7,7 @@ import (
 	"net"
 	"sort"
 	"strconv"
+	"sync"
 	"time"
 
 	"google.golang.org/grpc"
@@ -27,6 +28,12 @@ type RawNode struct {
 	conn   *grpc.ClientConn
 	cancel func()
 	mgr    *RawManager
+
+	// connMut guards conn and closed: a node that has not been connected yet
+	// dials again on every send (in the channel's sender goroutine), which may
+	// overlap with close.
+	connMut sync.Mutex
+	closed  bool
 
 	// the default channel
 	channel *channel
@@ -73,6 +80,12 @@ func (n *RawNode) connect(mgr *RawManager) error {
 
 // dial the node and close the current connection.
 func (n *RawNode) dial() error {
+	n.connMut.Lock()
+	defer n.connMut.Unlock()
+	if n.closed {
+		// do not create a connection that nobody would close
+		return fmt.Errorf("node closed")
+	}
 	if n.conn != nil {
 		// close the current connection before dialing again.
 		n.conn.Close()
@@ -108,10 +121,14 @@ func (n *RawNode) close() error {
 		// cancel is nil if the node was never connected (WithNoConnect)
 		n.cancel()
 	}
-	if n.conn == nil {
+	n.connMut.Lock()
+	n.closed = true
+	conn := n.conn
+	n.connMut.Unlock()
+	if conn == nil {
 		return nil
 	}
-	if err := n.conn.Close(); err != nil {
+	if err := conn.Close(); err != nil {
 		return nodeError{nodeID: n.id, cause: err}
 	}
 	return nil
